@@ -1,6 +1,8 @@
 package cachedpiece
 
 import (
+	"time"
+
 	"github.com/cenkalti/rain/v2/internal/filesection"
 	"github.com/cenkalti/rain/v2/internal/piece"
 	"github.com/cenkalti/rain/v2/internal/piececache"
@@ -71,7 +73,11 @@ func zzTruth(pi *piece.Piece, files []*vrt.MemFile, x uint32) byte {
 
 func zzCachedRead(maxSec int, readSize int64) {
 	pi, files := zzPieceOnFiles(maxSec, 4*piece.BlockSize)
-	c := New(pi, nil, readSize, [20]byte{})
+	var cache *piececache.Cache
+	if !vrt.Symbolic() {
+		cache = piececache.New(1<<20, time.Minute, 1) // native replay uses the real cache
+	}
+	c := New(pi, cache, readSize, [20]byte{})
 	n := vrt.Int("request_length")
 	vrt.Assume(n >= 1 && n <= piece.BlockSize)
 	off := vrt.U32("request_begin")
